@@ -3,8 +3,10 @@
 check of the property it targets (on a scratch worktree with the patch applied, VERIF_REPO=<worktree>)
 and writes /verif/seeded/RESULTS.md. Extra checks per seed can be listed in meta.json "also_run"."""
 import json, os, re, subprocess, sys, signal
+import os as _os
+VERIF_HOME = _os.environ.get("VERIF_HOME") or _os.path.dirname(_os.path.dirname(_os.path.abspath(__file__)))
 
-SE = "/verif/seeded"
+SE = VERIF_HOME + "/seeded"
 names = sys.argv[1:] or sorted(d for d in os.listdir(SE) if os.path.isdir(os.path.join(SE, d)))
 env = dict(os.environ, GOFLAGS="-mod=mod", GOPROXY="off", GOSUMDB="off", GOTOOLCHAIN="local")
 rows = []
@@ -22,7 +24,7 @@ for name in names:
         res = {}
         for cid in [prop] + [c for c in meta.get("also_run", []) if c != prop]:
             ev = dict(env, VERIF_REPO=wt, VERIF_EVIDENCE_DIR="/tmp/wt/ev", VERIF_REPLAY_DIR="/tmp/wt/rp-m")
-            p = subprocess.Popen(["/verif/check", cid, "quick"], env=ev, stdout=subprocess.PIPE, text=True, start_new_session=True)
+            p = subprocess.Popen([VERIF_HOME + "/check", cid, "quick"], env=ev, stdout=subprocess.PIPE, text=True, start_new_session=True)
             try:
                 so, _ = p.communicate(timeout=1200)
             except subprocess.TimeoutExpired:
